@@ -556,6 +556,7 @@ class Flags:
         self.generators = True
         self.yield_from = True
         self.bare_ann = False
+        self.walrus_in_comp = False
         self.tags = False
         self.unbound_reads = True
         self.finally_return = True
@@ -697,6 +698,8 @@ def functions(flags=None, want_gen=None):
 
         def name_target():
             pool = [v for v in LOCALS if v not in excluded and v not in taken] or [v for v in LOCALS if v not in taken]
+            if "x" not in taken and pool:
+                pool = pool * 3 + ["x"]  # now and then a parameter is rebound
             v = draw(st.sampled_from(pool or ["a"]))
             taken.append(v)
             return ("n", v)
@@ -811,6 +814,10 @@ def functions(flags=None, want_gen=None):
                     return [("assign", [t], int_expr(bound))]
                 return [("aug", ("n", draw(st.sampled_from(sorted(pool)))), op, int_expr(bound, 1))]
             if k == "expr":
+                if fl.walrus_in_comp and draw(st.integers(0, 3)) == 0:
+                    t = name_target()
+                    bound.add(t[1])
+                    return [("expr", ("comp", ("walrus", t[1], ("var", "cv_")), ("var", "xs")))]
                 return [("expr", ("E", ekey(), int_expr(bound, 1)))]
             if k == "ann":
                 t = name_target()
